@@ -31,7 +31,7 @@ CHECKS = {
             "count, remainder) combinations incl. exactly one chunk; each is executed and compared with the specified conversion.",
             "Trusted: TLC; chunking is observed through position-coded tensors; tensors abstracted to symbol sequences.",
             "DESIGN.md §5 C15"),
-    "C10": (["VariantOps", "Variant", "Variant_Trace"],
+    "C10": (["VariantOps", "Variant", "DeletionMask", "Variant_Trace"],
             "TLA+ spec (VariantOps/Variant) model-checked with TLC (same-loss, no-leak, length laws as invariants); all enumerated "
             "variant lists replayed into tangermeme.variant_effect through an identity func/model; random lists validated against "
             "Variant_Trace",
@@ -41,7 +41,7 @@ CHECKS = {
             "Trusted: TLC; identity func/model exposes the tensors passed to func; negative indices out of scope; conflicting "
             "substitutions unspecified ('any'); two insertions at one coordinate may appear in either order.",
             "DESIGN.md §5 C10"),
-    "C09": (["ISMOps", "ISM", "ISM_Trace"],
+    "C09": (["ISMOps", "ISM", "IndexMaps", "ISM_Trace"],
             "TLA+ spec (ISMOps/ISM) model-checked with TLC (self-mutant and centring laws as invariants); every enumerated "
             "window/batch-size/output-form replayed into saturation_mutagenesis on an exact-integer model; random calls validated "
             "against ISM_Trace",
@@ -51,7 +51,7 @@ CHECKS = {
             "Trusted: TLC; the PosCoded model is defined twice (TLA+ and torch) and cross-checked through y0; attribution compared "
             "after scaling by A*|targets|.",
             "DESIGN.md §5 C09"),
-    "C08": (["WrappersOps", "Wrappers", "Wrappers_Trace"],
+    "C08": (["WrappersOps", "Wrappers", "IndexMaps", "Wrappers_Trace"],
             "TLA+ spec (WrappersOps/Wrappers, re-using ErsatzOps and ISMOps) model-checked with TLC; every enumerated configuration "
             "replayed into marginalize/ablate/space/*_annotations/apply_pairwise/apply_product with a fingerprint model; "
             "shuffle-based wrappers and random configurations validated against Wrappers_Trace",
